@@ -27,4 +27,5 @@ CONSTANTS
   BugBoundKeepsFirst = FALSE
   BugAsyncGenWrapped = FALSE
   FixedDeclaredReturn = FALSE
+  FixedAsyncGenInferred = TRUE
 CHECK_DEADLOCK FALSE
